@@ -146,7 +146,10 @@ class SuspenderBase(metaclass=ABCMeta):
                         post_plan=self._post_plan,
                         justification=self.__justification(),
                     )
-                    if self.RE.state.is_running:
+                    # ('suspending' is the moment in which the engine, running, takes up another
+                    # suspender's request: this one must not be lost in it, or the plan goes on as soon
+                    # as the other suspender releases, with this signal still bad)
+                    if self.RE.state.is_running or self.RE.state == "suspending":
                         loop.call_soon_threadsafe(cb)
             elif self._should_resume(value):
                 self.__set_event(loop)
